@@ -320,7 +320,7 @@ func c08Timeout(d time.Duration, f func()) (ok bool) {
 // ---------------------------------------------------------------------------------------------
 // entry points on a given (possibly reused) parser; canonical result
 
-var c08Entries = []string{"parse", "stmts", "stmts1", "inter", "inter1", "words", "words1", "doc", "arith"}
+var c08Entries = []string{"parse", "stmts", "stmts1", "inter", "inter1", "words", "words1", "doc", "arith", "stmtsfn", "interfn", "wordsfn"}
 
 func c08RunEntry(p *syntax.Parser, entry, src string) (res string, panicked string) {
 	var sb strings.Builder
@@ -351,6 +351,30 @@ func c08RunEntry(p *syntax.Parser, entry, src string) (res string, panicked stri
 					break
 				}
 			}
+		case "stmtsfn": // the deprecated callback wrappers
+			n := 0
+			err := p.Stmts(rd, func(s *syntax.Stmt) bool {
+				sb.WriteString(c08Dump(s) + ";")
+				n++
+				return n < 3
+			})
+			sb.WriteString(" err=" + c08Err(err))
+		case "interfn":
+			n := 0
+			err := p.Interactive(rd, func(ss []*syntax.Stmt) bool {
+				fmt.Fprintf(&sb, "cb inc=%v %s;", p.Incomplete(), strings.Join(c08DumpStmts(ss), ","))
+				n++
+				return n < 3
+			})
+			sb.WriteString(" err=" + c08Err(err))
+		case "wordsfn":
+			n := 0
+			err := p.Words(rd, func(w *syntax.Word) bool {
+				sb.WriteString(c08Dump(w) + ";")
+				n++
+				return n < 3
+			})
+			sb.WriteString(" err=" + c08Err(err))
 		case "doc":
 			w, err := p.Document(rd)
 			sb.WriteString(c08Dump(w) + " err=" + c08Err(err))
